@@ -10,23 +10,23 @@ import (
 
 // SvcOp is a service-side action, fully specified so that it replays exactly.
 type SvcOp struct {
-	Op    string          `json:"op"` // change|add|remove|custom|delete|reaccess|silent|reset|token|tokenreset|qevent|policy|raw
-	Name  string          `json:"name,omitempty"`
-	Query string          `json:"q,omitempty"`
-	Set   map[string]*Val `json:"set,omitempty"` // nil value = delete
-	Idx   int             `json:"idx,omitempty"`
-	Val   *Val            `json:"val,omitempty"`
-	Ev    string          `json:"ev,omitempty"`
-	Res   []string        `json:"res,omitempty"`
-	Acc   []string        `json:"acc,omitempty"`
-	CIdx  int             `json:"c,omitempty"`
-	Token string          `json:"token,omitempty"`
-	TID   string          `json:"tid,omitempty"`
-	TIDs  []string        `json:"tids,omitempty"`
-	Subj  string          `json:"subj,omitempty"`
-	Pol   *Policy         `json:"pol,omitempty"`
-	Raw   string          `json:"raw,omitempty"`
-	NewState *StateJ      `json:"state,omitempty"`
+	Op       string          `json:"op"` // change|add|remove|custom|delete|reaccess|silent|reset|token|tokenreset|qevent|policy|raw
+	Name     string          `json:"name,omitempty"`
+	Query    string          `json:"q,omitempty"`
+	Set      map[string]*Val `json:"set,omitempty"` // nil value = delete
+	Idx      int             `json:"idx,omitempty"`
+	Val      *Val            `json:"val,omitempty"`
+	Ev       string          `json:"ev,omitempty"`
+	Res      []string        `json:"res,omitempty"`
+	Acc      []string        `json:"acc,omitempty"`
+	CIdx     int             `json:"c,omitempty"`
+	Token    string          `json:"token,omitempty"`
+	TID      string          `json:"tid,omitempty"`
+	TIDs     []string        `json:"tids,omitempty"`
+	Subj     string          `json:"subj,omitempty"`
+	Pol      *Policy         `json:"pol,omitempty"`
+	Raw      string          `json:"raw,omitempty"`
+	NewState *StateJ         `json:"state,omitempty"`
 }
 
 // StateJ is the JSON form of a State.
